@@ -99,6 +99,10 @@ pub fn val_strategy(big_permille: u32) -> impl Strategy<Value = Val> {
         50 => 1u32..8,
         800 => 8u32..121,
         (120 - big_permille.min(100)) => 121u32..1000,
+        // lengths at which a length prefix grows (1 -> 2 -> 3 varint bytes) and around one log block
+        12 => select(vec![127u32, 128, 129, 255, 256, 257]),
+        big_permille.max(1) => select(vec![16_383u32, 16_384, 16_385, 32_760, 32_761, 32_768]),
+        big_permille.max(1) => 1000u32..33_000,
         big_permille.max(1) => 33_000u32..100_000,
     ];
     (len, prop::bool::weighted(0.2)).prop_map(|(len, compressible)| Val { len, compressible })
